@@ -107,6 +107,45 @@ def run(ctx) -> None:
         ctx.count("roc.threshold_is_a_rate_present")
         roc_case(ctx, x, t, rng.choice(pool), rng.choice(CARRIERS), "rand")
 
+    # -- axes that look regular to a shortcut (total span = (n-1) x first step, first step = last step, ...) but are not
+    for _ in range(ctx.pick(300, 1500)):
+        n = rng.choice([4, 5, 6, 9, 12])
+        d = rng.choice([10, 60, 3600])
+        steps = [d]
+        while len(steps) < n - 1:
+            e = rng.choice([d // 2, d // 5, d // 10])
+            steps += [d - e, d + e] if len(steps) + 2 <= n - 1 else [d]
+        tail = steps[1:]
+        rng.shuffle(tail)
+        steps = [d, *tail]
+        t = [gen.T0]
+        for st_ in steps:
+            t.append(t[-1] + st_)
+        thr = rng.choice([0.125, 0.5, 1.0])
+        x = [gen.dyadic(rng)]
+        for k in range(1, n):
+            # the change is sized against the first step: on the other side of the threshold for this step's own length
+            x.append(x[-1] + rng.choice([1, -1]) * thr * d * rng.choice([1.0, 0.75, 1.25]))
+        roc_case(ctx, x, t, thr, rng.choice(CARRIERS), "pseudo-regular")
+        ctx.count("roc.pseudo_regular_axes")
+    # -- whole-number observations in every integer dtype (raw counts): a decrease is a negative change, not a wrap-around
+    for _ in range(ctx.pick(120, 600)):
+        n = rng.choice([3, 5, 8, 20])
+        hi = rng.choice([200, 60000, 3_000_000_000])
+        x = [rng.randrange(0, hi) for _ in range(n)]
+        if rng.random() < 0.5:
+            x = sorted(x, reverse=True)
+        t = gen.regular(n, rng.choice([1, 60]))
+        rates = [abs(x[k] - x[k - 1]) / float(t[k] - t[k - 1]) for k in range(1, n)]
+        thr = rng.choice([max(rates) + 1, sorted(rates)[len(rates) // 2], 0.5])
+        for cname, arr_ in gen.int_carriers(x):
+            kw = {"inp": arr_, "tinp": gen.times(t), "threshold": thr}
+            client.expect(ctx, "C10", "qartod.rate_of_change_test", kw, lambda: models.rate_of_change([float(v) for v in x], t, thr),
+                          logical={"x": x, "t": t, "threshold": thr, "carrier": cname}, hist="rate_of_change")
+            ctx.count("roc.calls")
+            ctx.count("roc.integer_dtype_calls")
+            ctx.case(f"roc|int-dtype|{cname}|n{gen.nclass(n)}")
+
     # -- speed
     def track(n):
         kind = rng.choice(["asym", "antimeridian", "stationary", "polar", "random"])
